@@ -266,6 +266,57 @@ def scn_filter_rows(T, case):
 
     C05.scn_rows(Renamed(T, "C05.rows.", "C04.rows."), case)
 
+# ------------------------------------------------------------------------------------ the plug-in makes a filter for the configuration it is given
+def cases_plugin_create(tier):
+    for first, second in (("upper", "lower"), ("upper", "equality"), ("lower", "upper"), ("equality", "lower")):
+        yield "cvar-constraint/%s-then-%s" % (first, second), {"kinds": [first, second]}
+    yield "cvar-objective/other-objective-weights", {"kinds": None}
+
+
+def scn_plugin_create(T, case):
+    """'What counts as worst' is read from the configuration of THIS evaluation: the plug-in object (one per process) is asked for a
+    filter twice with the same filter options but another configuration (another kind of bound, other objective weights); the
+    second filter behaves as a filter constructed directly for the second configuration."""
+    n = 3
+    if T.symbolic:
+        sh = T.shadow([M])
+        pcls = T.under_contract(sh, M, "DefaultRealizationFilterPlugin")
+        T.under_contract(sh, M, "DefaultRealizationFilterPlugin.create")
+        fcls = T.under_contract(sh, M, "DefaultRealizationFilter")
+        for q in ("__init__", "get_realization_weights", "_cvar_objectives", "_cvar_constraint"):
+            T.under_contract(sh, M, "DefaultRealizationFilter." + q)
+        T.under_contract(sh, M, "_get_cvar_weights_from_percentile")
+    else:
+        pcls, fcls = T.func(M, "DefaultRealizationFilterPlugin"), T.func(M, "DefaultRealizationFilter")
+    rhs = T.real("rhs", ())
+
+    def config(kind, ow):
+        lower = {"upper": -np.inf, "lower": rhs, "equality": rhs}[kind]
+        upper = {"upper": rhs, "lower": np.inf, "equality": rhs}[kind]
+        method = "cvar-constraint" if case["kinds"] else "cvar-objective"
+        opts = {"sort": 0, "percentile": 0.5} if case["kinds"] else {"sort": [0, 1], "percentile": 0.5}
+        return types.SimpleNamespace(realization_filters=(types.SimpleNamespace(method=method, options=opts),), realizations=types.SimpleNamespace(weights=T.const(np.ones(n) / n)),
+                                     objectives=types.SimpleNamespace(weights=ow), nonlinear_constraints=types.SimpleNamespace(lower_bounds=T.np.array([lower]), upper_bounds=T.np.array([upper])))
+
+    if case["kinds"]:
+        cfgs = [config(k, T.const(np.array([0.5, 0.5]))) for k in case["kinds"]]
+    else:
+        cfgs = [config("upper", T.const(np.array([0.9, 0.1]))), config("upper", T.const(np.array([0.1, 0.9])))]
+    plugin = pcls()
+    objectives, constraints = T.real("objectives", (n, 2)), T.real("constraints", (n, 1))
+    made = [plugin.create(c, 0) for c in cfgs]
+    T.prove("C04.plugin.every_request_gets_its_own_filter_object", made[0] is not made[1])
+    for k, c in enumerate(cfgs):
+        got = made[k].get_realization_weights(objectives, constraints)
+        # the tail specification of C04, with 'worst' read from configuration k
+        if case["kinds"]:
+            kind = case["kinds"][k]
+            bad = [constraints[r, 0] if kind == "upper" else (-constraints[r, 0] if kind == "lower" else abs(constraints[r, 0] - rhs)) for r in range(n)]
+        else:
+            bad = [T.total([c.objectives.weights[j] * objectives[r, j] for j in range(2)]) for r in range(n)]
+        cvar_spec(T, "C04.plugin.request_%d" % (k + 1), bad, [False] * n, 0.5, got)
+
+
 SCENARIOS = [
     Scenario("kernel", scn_kernel, cases_kernel, {"quick": 5, "thorough": 40}),
     Scenario("flavours", scn_flavours, cases_flavours, {"quick": 5, "thorough": 30}),
@@ -275,6 +326,7 @@ SCENARIOS = [
     Scenario("plan_steps_hand_over", scn_steps, cases_steps, {"quick": 1, "thorough": 2}),
     Scenario("filters_failures_and_combined_requests", scn_filters_and_failures, cases_filters_and_failures, {"quick": 5, "thorough": 30}),
     Scenario("filter_rows", scn_filter_rows, cases_filter_rows, {"quick": 3, "thorough": 20}),
+    Scenario("plugin_creates_a_filter_for_the_given_configuration", scn_plugin_create, cases_plugin_create, {"quick": 5, "thorough": 30}),
 ]
 
 MANIFEST = {
